@@ -304,6 +304,12 @@ def run_ctx(case):
                 raise Violation("wire", f"compression table entry {pos} undecodable: {e}", "table-entry")
             if W.name_key(info.labels) != W.name_key(nm.labels):
                 raise Violation("wire", f"compression table maps {nm!r} to offset {pos} holding {info.labels!r}", "table-wrong")
+    if case["compress"]:
+        flat = {}
+        for exp in expected:
+            flat.setdefault((len(exp), _lower(b"".join(exp))), set()).add(tuple(_lower(l) for l in exp))
+        if any(len(v) > 1 for v in flat.values()):
+            classes.append("boundary-twins-in-one-table")
     return {"nontrivial": npointers > 0, "classes": classes}
 
 
@@ -689,7 +695,7 @@ def parts(tier):
              require={"escape": 200, "relative-under-origin": 100, "relativized-text": 100, "near-limit": 50, "at-sign": 5, "pseudo-suffix": 300}),
         Part("octets", run_text, cases=octet_cases, shards={"quick": 4, "thorough": 4}),
         Part("ctx", run_ctx, strategy=ctx_cases(), n={"quick": 4000, "thorough": 120000},
-             require={"pointer": 300, "near-0x3fff": 100}),
+             require={"pointer": 300, "near-0x3fff": 100, "boundary-twins-in-one-table": 100}),
         Part("ops", run_ops, strategy=ops_cases(), n={"quick": 8000, "thorough": 200000},
              require={"near-limit": 100, "invalid-raises": 50, "raised:successor": 1, "raised:to_wire": 100, "pseudo-suffix": 150}),
         Part("decode", run_decode, strategy=decode_cases(), n={"quick": 16000, "thorough": 400000}, case_timeout_s=3.0,
